@@ -107,18 +107,18 @@ func (c *Curve) AssertIsEqual(P, Q *G1Affine) {
 }
 
 func (c *Pairing) IsEqual(x, y *GT) frontend.Variable {
-	diff0 := c.api.Sub(&x.C0.B0.A0, &y.C0.B0.A0)
-	diff1 := c.api.Sub(&x.C0.B0.A1, &y.C0.B0.A1)
-	diff2 := c.api.Sub(&x.C0.B0.A0, &y.C0.B0.A0)
-	diff3 := c.api.Sub(&x.C0.B1.A1, &y.C0.B1.A1)
-	diff4 := c.api.Sub(&x.C0.B1.A0, &y.C0.B1.A0)
-	diff5 := c.api.Sub(&x.C0.B1.A1, &y.C0.B1.A1)
-	diff6 := c.api.Sub(&x.C1.B0.A0, &y.C1.B0.A0)
-	diff7 := c.api.Sub(&x.C1.B0.A1, &y.C1.B0.A1)
-	diff8 := c.api.Sub(&x.C1.B0.A0, &y.C1.B0.A0)
-	diff9 := c.api.Sub(&x.C1.B1.A1, &y.C1.B1.A1)
-	diff10 := c.api.Sub(&x.C1.B1.A0, &y.C1.B1.A0)
-	diff11 := c.api.Sub(&x.C1.B1.A1, &y.C1.B1.A1)
+	diff0 := c.api.Sub(x.C0.B0.A0, y.C0.B0.A0)
+	diff1 := c.api.Sub(x.C0.B0.A1, y.C0.B0.A1)
+	diff2 := c.api.Sub(x.C0.B1.A0, y.C0.B1.A0)
+	diff3 := c.api.Sub(x.C0.B1.A1, y.C0.B1.A1)
+	diff4 := c.api.Sub(x.C0.B2.A0, y.C0.B2.A0)
+	diff5 := c.api.Sub(x.C0.B2.A1, y.C0.B2.A1)
+	diff6 := c.api.Sub(x.C1.B0.A0, y.C1.B0.A0)
+	diff7 := c.api.Sub(x.C1.B0.A1, y.C1.B0.A1)
+	diff8 := c.api.Sub(x.C1.B1.A0, y.C1.B1.A0)
+	diff9 := c.api.Sub(x.C1.B1.A1, y.C1.B1.A1)
+	diff10 := c.api.Sub(x.C1.B2.A0, y.C1.B2.A0)
+	diff11 := c.api.Sub(x.C1.B2.A1, y.C1.B2.A1)
 
 	isZero0 := c.api.IsZero(diff0)
 	isZero1 := c.api.IsZero(diff1)
